@@ -125,7 +125,21 @@ func checkHandlerErrorReturned(c *Ctx, res *report.Result, rule string) {
 				continue
 			}
 			n++
-			res.Check(okVal(ev, 0), rule, fmt.Sprintf("%s: the error returned in block %d is the handler's", shortFn(f), b.Index), instrPos(c.Prog, ret), "the error result of handler(..) on every path",
+			good := okVal(ev, 0)
+			if !good && flow.IsNilConst(flow.ResolveLoad(ev)) {
+				// `if err := handler(..); err != nil { return err }; return nil`: nil on the side on which the
+				// handler's error was found nil
+				for _, call := range flow.Calls(f) {
+					if cv, isC := call.(*ssa.Call); isC && !cv.Call.IsInvoke() && flow.Strip(flow.ResolveLoad(cv.Call.Value)) == handler {
+						if he := errResultOf(cv); he != nil && guardedErrNil(b, he) {
+							good = true
+						} else if cv.Call.Signature().Results().Len() == 1 && guardedErrNil(b, cv) {
+							good = true
+						}
+					}
+				}
+			}
+			res.Check(good, rule, fmt.Sprintf("%s: the error returned in block %d is the handler's", shortFn(f), b.Index), instrPos(c.Prog, ret), "the error result of handler(..) on every path",
 				"after the handler ran the interceptor returns "+flow.Describe(flow.ResolveLoad(ev))+", which is not (on every path) the handler's own error: the interceptors further down the chain - the access check among them - answer through the handler, so their PermissionDenied is swallowed and the remote caller sees a clean end of stream")
 		}
 	}
